@@ -1945,6 +1945,14 @@ package query
 //@   abstract *
 //@   assert before call query.LoadViewFromTableIdentifier#1: [existence-check-of-create-table-if-not-exists-only-reads] !arg3 && !arg4
 //@   modifies *
+// C01: the implicit commit at the end of a procedure happens only when the statement list ended normally: no error and no
+// EXIT / BREAK / RETURN flow (after an error or EXIT the caller rolls back instead), and only in auto-commit mode
+//@ func (*Processor).Execute
+//@   property C01
+//@   abstract *
+//@   requires proc != nil && proc.Tx != nil
+//@   assert before call (*query.Processor).AutoCommit#1: [auto-commit-only-after-a-normal-end] err == nil && flow == Terminate && proc.Tx.AutoCommit
+//@   modifies *
 //@ func (*Processor).execute!loop
 //@   property C15
 //@   ensures [every-statement-is-run-at-most-once-in-order] stmtsRun - old(stmtsRun) <= len(statements)
